@@ -165,7 +165,10 @@ let parse_route (toks : string list) : route =
                    b_pathid = b.pid; b_aspathlen = b.apl; b_postpolicy = b.pp }) } in
   { r_pfx = !pfx; r_paths = List.rev_map mk_path !paths }
 
-(* ---- printers (the notation of harness/cmd/c34) *)
+(* ---- printers (the notation of harness/cmd/c34): the returned route is shown with the fields the
+   property speaks about only (no LTime, RedistributedFrom, Aggregator, AtomicAggregate, ASPathLen,
+   and only the part of a path that belongs to its type) *)
+let bgp_type = n_of_int 2
 let fmt_bgp (b : bgp_path option) : string =
   match b with
   | None -> "bgp=-"
@@ -174,19 +177,20 @@ let fmt_bgp (b : bgp_path option) : string =
       | None -> ["a=-"]
       | Some a ->
         ["a=+"; "nh=" ^ fmt_ip a.a_nexthop; "src=" ^ fmt_ip a.a_source;
-         Printf.sprintf "lp=%s med=%s id=%s oid=%s agg=%s ebgp=%s atom=%s org=%s otc=%s"
+         Printf.sprintf "lp=%s med=%s id=%s oid=%s ebgp=%s org=%s otc=%s"
            (n_dec a.a_localpref) (n_dec a.a_med) (n_dec a.a_bgpid) (n_dec a.a_origid)
-           (match a.a_aggregator with None -> "-" | Some (x, y) -> n_dec x ^ ":" ^ n_dec y)
-           (b01 a.a_ebgp) (b01 a.a_atomic) (n_dec a.a_origin) (n_dec a.a_otc)] in
+           (b01 a.a_ebgp) (n_dec a.a_origin) (n_dec a.a_otc)] in
     String.concat " " (["bgp=+"] @ a @
       ["asp=" ^ fmt_segs b.b_aspath; "cl=" ^ fmt_nums b.b_cluster; "co=" ^ fmt_nums b.b_comms;
        "lc=" ^ fmt_lc b.b_lcomms; "ua=" ^ fmt_ua b.b_unknown;
-       Printf.sprintf "pid=%s apl=%s pp=%s" (n_dec b.b_pathid) (n_dec b.b_aspathlen) (b01 b.b_postpolicy)])
+       Printf.sprintf "pid=%s pp=%s" (n_dec b.b_pathid) (b01 b.b_postpolicy)])
 
 let fmt_path (p : path) : string =
-  let st = match p.p_static with None -> "-" | Some None -> "~" | Some (Some i) -> fmt_ip (Some i) in
-  Printf.sprintf "t=%s rd=%s h=%s lt=%s st=%s %s" (n_dec p.p_type) (n_dec p.p_redist) (n_dec p.p_hidden)
-    (n_dec p.p_ltime) st (fmt_bgp p.p_bgp)
+  let head = Printf.sprintf "t=%s h=%s" (n_dec p.p_type) (n_dec p.p_hidden) in
+  if p.p_type = bgp_type then head ^ " " ^ fmt_bgp p.p_bgp
+  else
+    let st = match p.p_static with None -> "-" | Some None -> "~" | Some (Some i) -> fmt_ip (Some i) in
+    head ^ " st=" ^ st
 
 let fmt_route (r : route) : string =
   let pf = match r.r_pfx with
@@ -205,7 +209,7 @@ let fmt_api (a : api_route) : string =
     | Some p -> Printf.sprintf "%s/%s" (fmt_aip p.apfx_addr) (n_dec p.apfx_len) in
   let path (p : api_path) : string list =
     let st = match p.ap_static with None -> "-" | Some None -> "~" | Some (Some i) -> fmt_aip (Some i) in
-    let head = Printf.sprintf "t=%s h=%s lt=%s st=%s" (n_dec p.ap_type) (n_dec p.ap_hidden) (n_dec p.ap_ltime) st in
+    let head = Printf.sprintf "t=%s h=%s st=%s" (n_dec p.ap_type) (n_dec p.ap_hidden) st in
     match p.ap_bgp with
     | None -> ["|"; head; "bgp=-"]
     | Some b ->
